@@ -165,7 +165,7 @@ func (p MkLineParser) fixSpaceAfterVarname(line *Line, a *mkLineAssign) {
 	default:
 		parts := NewVaralignSplitter().split(line.RawText(0), true)
 		before := parts.leadingComment + parts.varnameOp + parts.spaceBeforeValue
-		after := alignWith(varname+op.String(), before)
+		after := alignWith(parts.leadingComment+varname+op.String(), before)
 
 		fix := line.Autofix()
 		fix.Notef("Unnecessary space after variable name %q.", varname)
